@@ -220,3 +220,37 @@ Definition resolve_exit (hasattr : pyty -> meth -> bool) (t : pyty) (r : exit_re
   | ExTryMethod m => Some (if hasattr t m then BInPlace m else BCtor)
   | ExRaise => None
   end.
+
+(* ---- the pieces get_path's lookup step and research's enter wrapper are made of --
+   (Gen/C08_Src.v composes them as the source does; Proofs/C08_Source.v proves the
+   composition equal to [getitem] / [reported_x]) *)
+Definition PathAccessError : exn := OtherExn 10.
+Fixpoint exn_in (e : exn) (l : list exn) : bool :=
+  match l with [] => false | x :: r => exn_eqb e x || exn_in e r end.
+
+(* Python's cur[seg] itself: list/tuple need an int (IndexError when out of range,
+   TypeError for anything else), dict looks the key up (KeyError), nothing else is
+   subscriptable (TypeError) *)
+Definition raw_getitem (defs : table obj) (cur : obj) (seg : key) : res obj :=
+  match resolve defs cur with
+  | ONode _ KList items | ONode _ KTuple items =>
+      match seg with
+      | KI i => match nth_error items i with Some (_, c) => Ok c | None => Raise IndexError end
+      | _ => Raise TypeError
+      end
+  | ONode _ KDict items => match kd_get items seg with Some c => Ok c | None => Raise KeyError end
+  | _ => Raise TypeError
+  end.
+
+(* int(seg): an int or a string of digits converts; other strings/bytes give
+   ValueError, None and tuples TypeError (all KT keys are rendered as ValueError: both
+   are caught by the same clause) *)
+Definition py_int (seg : key) : res nat :=
+  match seg with
+  | KI i | KS i => Ok i
+  | KT _ => Raise ValueError
+  | KNone => Raise TypeError
+  end.
+
+(* what research's enter wrapper does with one enter call, given the query's answer *)
+Inductive research_step := RReport (p : path) (r : oref) | RSkip | RRaise.
